@@ -1306,6 +1306,50 @@ v("C18", "protocloner-copy-swapped", "inprocgrpc/cloner.go",
 v("C18", "copy-resets-source", "internal/misc.go",
   "	pmOut.Reset()\n", "	pmOut.Reset()\n	defer pmIn.Reset()\n", "R4", "source-read-only", "the source message is cleared after copying")
 
+# ------------------------------------------------------------------ C19
+v("C19", "increment-in-unary-branch", "cmd/protoc-gen-grpchan/protoc-gen-grpchan.go",
+  """						return out, nil`), &methodInfo))
+			}""", """						return out, nil`), &methodInfo))
+				streamCount++
+			}""", "R1", "counter-increments", "unary methods consume a stream index")
+v("C19", "increment-before-data", "cmd/protoc-gen-grpchan/protoc-gen-grpchan.go",
+  """		for _, md := range sd.GetMethods() {
+			methodInfo := struct {""", """		for _, md := range sd.GetMethods() {
+			if md.IsClientStreaming() || md.IsServerStreaming() {
+				streamCount++
+			}
+			methodInfo := struct {""", "R1", "counter", "index read after the increment (off by one)")
+v("C19", "counter-not-reset", "cmd/protoc-gen-grpchan/protoc-gen-grpchan.go",
+  """		streamCount := 0
+		tmpls := templates{}""", """		tmpls := templates{}""", "R1", "counter-reset-per-service", "second service's streams continue the first one's numbering", edits=[
+   {"file": "cmd/protoc-gen-grpchan/protoc-gen-grpchan.go", "old": "		streamCount := 0\n		tmpls := templates{}", "new": "		tmpls := templates{}"},
+   {"file": "cmd/protoc-gen-grpchan/protoc-gen-grpchan.go", "old": "	for _, sd := range fd.GetServices() {\n		svcName :=", "new": "	streamCount := 0\n	for _, sd := range fd.GetServices() {\n		svcName :="}])
+v("C19", "template-field-typo", "cmd/protoc-gen-grpchan/protoc-gen-grpchan.go",
+  """						x := &{{.StreamClient}}{stream}
+						if err := x.ClientStream.SendMsg(in); err != nil {""", """						x := &{{.StreamClientImpl}}{stream}
+						if err := x.ClientStream.SendMsg(in); err != nil {""", "R2", "fields-exist", "template references a non-existent field: plugin fails at run time")
+v("C19", "server-stream-no-closesend", "cmd/protoc-gen-grpchan/protoc-gen-grpchan.go",
+  """						if err := x.ClientStream.CloseSend(); err != nil {
+						    return nil, err
+						}
+						return x, nil`), &methodInfo))""", """						return x, nil`), &methodInfo))""", "R2", "send-then-close", "server-streaming stub never half-closes")
+v("C19", "unary-allocates-input-type", "cmd/protoc-gen-grpchan/protoc-gen-grpchan.go",
+  "				RequestType:  names.GoTypeForMessage(md.GetOutputType()),", "				RequestType:  names.GoTypeForMessage(md.GetInputType()),", "R2", "data:output-type", "unary stub allocates the request type for the response")
+v("C19", "path-uses-short-service-name", "cmd/protoc-gen-grpchan/protoc-gen-grpchan.go",
+  "				ServiceName:  sd.GetFullyQualifiedName(),", "				ServiceName:  sd.GetName(),", "R2", "data:names", "path lacks the proto package")
+v("C19", "checked-in-stub-wrong-index", "grpchantesting/test.pb.grpchan.go",
+  '	stream, err := c.ch.NewStream(ctx, &TestService_ServiceDesc.Streams[2], "/grpchantesting.TestService/BidiStream", opts...)', '	stream, err := c.ch.NewStream(ctx, &TestService_ServiceDesc.Streams[1], "/grpchantesting.TestService/BidiStream", opts...)', "R3", "stream-binding", "bidi stub bound to the server-stream descriptor")
+v("C19", "option-aliases-field", "cmd/protoc-gen-grpchan/protoc-gen-grpchan.go",
+  """			result.legacyDescNames = val
+
+		case "import_path":""", """			result.legacyStubs = val
+
+		case "import_path":""", "R4", "bool-options", "legacy_desc_names toggles legacy_stubs")
+v("C19", "m-option-unguarded", "cmd/protoc-gen-grpchan/protoc-gen-grpchan.go",
+  "			if len(vals[0]) > 1 && vals[0][0] == 'M' {", "			if vals[0][0] == 'M' {", "R4", "bounds", "empty option name panics the plugin")
+v("C19", "new-option", "cmd/protoc-gen-grpchan/protoc-gen-grpchan.go",
+  """		case "module":""", """		case "module", "mod":""", "R4", "option-names", "an undocumented option alias is accepted")
+
 
 def main():
     if os.path.isdir(OUT):
